@@ -342,10 +342,12 @@ func rangeWithin(from, to types.Type) bool {
 }
 
 // allocFresh: ref is a newly allocated object.
-func (p *Path) allocFresh(ref string) {
+func (p *Path) allocFresh(ref string) { p.allocFreshTag(ref, 0) }
+
+func (p *Path) allocFreshTag(ref string, tag int) {
 	nn := p.fx.fresh("now")
 	p.declare(nn, "Int")
-	p.assume(fmt.Sprintf("(and (not (= %s nil)) (= (stamp %s) (+ %s 1)) (= %s (+ %s 1)) (= (ftag %s) 0))", ref, ref, p.st.now, nn, p.st.now, ref))
+	p.assume(fmt.Sprintf("(and (not (= %s nil)) (= (stamp %s) (+ %s 1)) (= %s (+ %s 1)) (= (ftag %s) %s))", ref, ref, p.st.now, nn, p.st.now, ref, smtInt(fmt.Sprint(tag))))
 	p.st.now = nn
 }
 
